@@ -14,6 +14,7 @@ package main
 import (
 	"bytes"
 	"crypto/aes"
+	"crypto/cipher"
 	"crypto/hmac"
 	"crypto/rand"
 	"crypto/rsa"
@@ -24,9 +25,11 @@ import (
 	"encoding/hex"
 	"encoding/json"
 	"encoding/pem"
+	"errors"
 	"fmt"
 	"hash"
 	"io"
+	"math"
 	"net/http"
 	"net/http/httptest"
 	"net/url"
@@ -37,6 +40,7 @@ import (
 	"time"
 
 	"github.com/golang-jwt/jwt/v4"
+	"github.com/golang-jwt/jwt/v4/request"
 	"github.com/zeromicro/go-zero/core/codec"
 	"github.com/zeromicro/go-zero/core/conf"
 	"github.com/zeromicro/go-zero/core/logx"
@@ -44,6 +48,7 @@ import (
 	"github.com/zeromicro/go-zero/rest/handler"
 	"github.com/zeromicro/go-zero/rest/httpx"
 	"github.com/zeromicro/go-zero/rest/router"
+	"github.com/zeromicro/go-zero/rest/token"
 	"verifh/hx"
 )
 
@@ -64,6 +69,7 @@ type JReq struct {
 	SignKey string `json:"signkey"`
 	SignAlg string `json:"signalg"` // HS256 | HS384 | HS512 | none | garbage
 	Mut     []Mut  `json:"mut"`
+	Auth2   string `json:"auth2"` // a second Authorization header: "" | after | before (garbage value after / before the real one)
 }
 
 type CSReq struct {
@@ -93,6 +99,10 @@ type CSReq struct {
 	BodyRaw  *string `json:"bodyraw"`  // wire body override (after signing unless sbody given)
 	HdrFmt   string  `json:"hdrfmt"`   // "" | nospace | spaces | trailing | dupsig_good_last | dupsig_bad_last | upper | junk
 	CipherOp string  `json:"cipherop"` // "" | trunc | lastbyte | wrongkey : applied to the ciphertext before base64
+	ClenAdd  int64   `json:"clenadd"`  // r.ContentLength = len(wire) + clenadd (a lying Content-Length)
+	GzEnc    bool    `json:"gzenc"`    // encrypt the secret with go-zero's codec.NewRsaEncrypter instead of crypto/rsa
+	SecPad   int     `json:"secpad"`   // extra "; pad=xxx" bytes in the secret (several RSA blocks)
+	Flush    bool    `json:"flush"`    // the route handler calls Flush and tries Hijack
 }
 
 type Case struct {
@@ -118,6 +128,51 @@ type Case struct {
 	UsCb   bool    `json:"uscb"`
 	// hdr: raw header values for httpx.ParseHeader
 	Hdrs []string `json:"hdrs"`
+	// jwt: 0 = nil callback, 1 = recording callback, 2 = recording callback that writes its own status
+	Cb int `json:"cb"`
+	// cs/crypt: use ContentSecurityHandler / CryptionHandler (the wrappers with the default limit)
+	Wrap bool `json:"wrap"`
+	// tp: one token.TokenParser, every call with its own secrets
+	Reset bool     `json:"reset"`
+	Calls []TpCall `json:"calls"`
+	// srv: a server with several groups, each with its own configuration, and a sequence of requests
+	SGroups []SGroup `json:"sgroups"`
+	SReqs   []SReq   `json:"sreqs"`
+	UseMw   bool     `json:"usemw"`
+}
+
+type TpCall struct {
+	Secret string `json:"secret"`
+	Prev   string `json:"prev"`
+	Req    JReq   `json:"req"`
+}
+
+type SJwt struct {
+	Secret string `json:"secret"`
+	Prev   string `json:"prev"`
+}
+
+type SKey struct {
+	Fp   string `json:"fp"`
+	File string `json:"file"` // name of a generated key (A..D) | missing | badpem
+}
+
+type SSig struct {
+	Strict bool   `json:"strict"`
+	Tol    int64  `json:"tol"`
+	Keys   []SKey `json:"keys"`
+}
+
+type SGroup struct {
+	Jwt    *SJwt       `json:"jwt"`
+	Sig    *SSig       `json:"sig"`
+	Routes [][2]string `json:"routes"`
+	Opts   []string    `json:"opts"` // timeout | maxbytes
+}
+
+type SReq struct {
+	J  *JReq `json:"j"`
+	CS CSReq `json:"cs"`
 }
 
 type Group struct {
@@ -138,14 +193,45 @@ type JView struct {
 	TagCur  string            `json:"tagcur"`  // hex HMAC_alg(secret, input) ("" if alg not HS*)
 	TagPrev string            `json:"tagprev"` // hex HMAC_alg(prev, input)
 	Claims  map[string]string `json:"claims"`  // key -> canonical JSON of the value
+	Tags    map[string]string `json:"tags,omitempty"`  // srv: secret -> hex HMAC_alg(secret, input), for every secret of the server
+	TimeVal map[string]string `json:"timeval,omitempty"` // exp/iat/nbf given as JSON numbers: the whole seconds jwt compares with (floor), as decimal text
 }
 
 type JObs struct {
-	Ran    bool              `json:"ran"`
-	Status int               `json:"status"`
-	Ctx    map[string]string `json:"ctx"`
-	Panic  string            `json:"panic,omitempty"`
-	View   JView             `json:"view"`
+	Ran      bool              `json:"ran"`
+	Status   int               `json:"status"`
+	Ctx      map[string]string `json:"ctx"`
+	Panic    string            `json:"panic,omitempty"`
+	Err      int               `json:"uerr"`     // error handed to the unauthorized callback (-9: no callback; 0: not called)
+	CbStatus int               `json:"cbstatus"` // status written by the callback itself (0: none)
+	View     JView             `json:"view"`
+}
+
+type TpObs struct {
+	Code int   `json:"code"` // 0: token returned and Valid; else the error code
+	View JView `json:"view"`
+}
+
+type SReqObs struct {
+	Ran      bool    `json:"ran"`
+	RanRoute string  `json:"ranroute"`
+	Status   int     `json:"status"`
+	Seen     string  `json:"seen"`
+	RespRaw  string  `json:"respraw"`
+	RespDec  *string `json:"respdec"`
+	UErr     int     `json:"uerr"`
+	UsCode   int     `json:"uscode"`
+	MwRan    bool    `json:"mwran"`
+	Panic    string  `json:"panic,omitempty"`
+	Unstable bool    `json:"unstable,omitempty"`
+	JView    *JView  `json:"jwtview,omitempty"`
+	View     CSView  `json:"view"`
+}
+
+type SrvObs struct {
+	BindOk bool      `json:"bindok"`
+	EngErr string    `json:"engerr,omitempty"`
+	Reqs   []SReqObs `json:"reqs"`
 }
 
 type CSView struct {
@@ -174,6 +260,8 @@ type CSView struct {
 	AesOk     bool              `json:"aesok"`
 	DTab      map[string]string `json:"dtab"` // AES^-1 on every full block of B64
 	ETab      map[string]string `json:"etab"` // AES on every block of the padded response
+	DecKeys   []string          `json:"deckeys"` // names of the generated RSA keys under which the secret decrypts to what the client encrypted
+	SecretCt  string            `json:"secretct"` // the secret attribute as sent
 }
 
 type CSObs struct {
@@ -195,6 +283,9 @@ type CSObs struct {
 	CodecEnc  string  `json:"codecenc"` // hex EcbEncrypt(key, body)
 	CodecDec  string  `json:"codecdec"` // ok:<hex> | err | panic   of EcbDecrypt(key, EcbEncrypt(key, body))
 	RawDec    string  `json:"rawdec"`   // ok:<hex> | err | panic   of EcbDecrypt(key, B64)
+	HdrOut    bool    `json:"hdrout"`   // the response header set by the route handler reached the client
+	CodecX    string  `json:"codecx"`   // "" = the other exported codec entry points behave like EcbEncrypt/EcbDecrypt; else what differed
+	MwRan     bool    `json:"mwran"`
 }
 
 type HObs struct {
@@ -203,11 +294,13 @@ type HObs struct {
 }
 
 type Out struct {
-	Hdr []HObs `json:"hdr,omitempty"`
-	ID  int    `json:"id"`
-	Jwt []JObs `json:"jwt,omitempty"`
-	CS  *CSObs `json:"cs,omitempty"`
-	Err string `json:"err,omitempty"`
+	Hdr []HObs  `json:"hdr,omitempty"`
+	ID  int     `json:"id"`
+	Jwt []JObs  `json:"jwt,omitempty"`
+	Tp  []TpObs `json:"tp,omitempty"`
+	Srv *SrvObs `json:"srv,omitempty"`
+	CS  *CSObs  `json:"cs,omitempty"`
+	Err string  `json:"err,omitempty"`
 }
 
 // ---------------------------------------------------------------------------
@@ -322,12 +415,63 @@ func authHeader(q JReq, tok string) (string, bool) {
 		return "bearer " + tok, true
 	case "upper":
 		return "BEARER " + tok, true
+	case "mixed":
+		return "bEaReR " + tok, true
 	case "noprefix":
 		return tok, true
 	case "basic":
 		return "Basic " + tok, true
+	case "twospace":
+		return "Bearer  " + tok, true
+	case "trailspace":
+		return "Bearer " + tok + " ", true
+	case "leadspace":
+		return " Bearer " + tok, true
+	case "tab":
+		return "Bearer\t" + tok, true
+	case "beareronly":
+		return "Bearer ", true
+	case "bearerbearer":
+		return "Bearer Bearer " + tok, true
 	}
 	return "Bearer " + tok, true
+}
+
+// authValues: the Authorization header values as sent (the first one is what net/http's Header.Get
+// returns and what the extractor reads)
+func authValues(q JReq) ([]string, bool) {
+	hdr, present := authHeader(q, buildToken(q))
+	if !present {
+		return nil, false
+	}
+	switch q.Auth2 {
+	case "after":
+		return []string{hdr, "Bearer garbage.garbage.garbage"}, true
+	case "before":
+		return []string{"Bearer garbage.garbage.garbage", hdr}, true
+	}
+	return []string{hdr}, true
+}
+
+func setAuth(r *http.Request, vals []string) {
+	for _, v := range vals {
+		r.Header.Add("Authorization", v)
+	}
+}
+
+// errCode maps the error ParseToken returned / the unauthorized callback received
+func errCode(err error) int {
+	if err == nil {
+		return 0
+	}
+	var ve *jwt.ValidationError
+	if errors.As(err, &ve) {
+		return int(ve.Errors)
+	}
+	if errors.Is(err, request.ErrNoTokenInRequest) {
+		return -1
+	}
+	return -2
 }
 
 func canon(v any) string {
@@ -342,7 +486,7 @@ var asymAlgs = map[string]bool{"RS256": true, "RS384": true, "RS512": true, "PS2
 	"PS512": true, "ES256": true, "ES384": true, "ES512": true, "EdDSA": true}
 
 // classify is the harness's own reading of the credential it is about to send.
-func classify(hdr string, present bool, secret, prev string) JView {
+func classify(hdr string, present bool, secret, prev string, all ...string) JView {
 	v := JView{Cred: "missing", Claims: map[string]string{}}
 	if !present || hdr == "" {
 		return v
@@ -378,6 +522,18 @@ func classify(hdr string, present bool, secret, prev string) JView {
 	for k, x := range claims {
 		v.Claims[k] = canon(x)
 	}
+	// exp / iat / nbf given as JSON numbers: jwt compares whole seconds (NumericDate truncated to
+	// TimePrecision = 1 s); computed here with strconv/math, not with the jwt library
+	for _, k := range []string{"exp", "iat", "nbf"} {
+		if n, ok := claims[k].(json.Number); ok {
+			if f, err := strconv.ParseFloat(string(n), 64); err == nil && math.Abs(f) < 1e15 {
+				if v.TimeVal == nil {
+					v.TimeVal = map[string]string{}
+				}
+				v.TimeVal[k] = strconv.FormatInt(int64(math.Floor(f)), 10)
+			}
+		}
+	}
 	alg, ok := h["alg"].(string)
 	switch {
 	case !ok:
@@ -396,17 +552,27 @@ func classify(hdr string, present bool, secret, prev string) JView {
 	}
 	v.TagCur = macHex(v.Alg, secret, v.Input)
 	v.TagPrev = macHex(v.Alg, prev, v.Input)
+	if len(all) > 0 {
+		v.Tags = map[string]string{}
+		for _, sec := range all {
+			v.Tags[sec] = macHex(v.Alg, sec, v.Input)
+		}
+	}
 	return v
 }
 
 var stdClaims = []string{"aud", "exp", "jti", "iat", "iss", "nbf", "sub"}
 
-func jwtGate(secret, prev string) func(http.Handler) http.Handler {
+func jwtGate(secret, prev string, cb ...handler.UnauthorizedCallback) func(http.Handler) http.Handler {
 	// exactly as engine.appendAuthHandler
-	if len(prev) == 0 {
-		return handler.Authorize(secret, handler.WithUnauthorizedCallback(nil))
+	var callback handler.UnauthorizedCallback
+	if len(cb) > 0 {
+		callback = cb[0]
 	}
-	return handler.Authorize(secret, handler.WithPrevSecret(prev), handler.WithUnauthorizedCallback(nil))
+	if len(prev) == 0 {
+		return handler.Authorize(secret, handler.WithUnauthorizedCallback(callback))
+	}
+	return handler.Authorize(secret, handler.WithPrevSecret(prev), handler.WithUnauthorizedCallback(callback))
 }
 
 func serve(h http.Handler, r *http.Request) (rec *httptest.ResponseRecorder, pmsg string) {
@@ -421,8 +587,21 @@ func serve(h http.Handler, r *http.Request) (rec *httptest.ResponseRecorder, pms
 }
 
 func runJwt(c Case) []JObs {
-	gate := jwtGate(c.Secret, c.Prev)
 	var cur *JObs
+	var gate func(http.Handler) http.Handler
+	switch c.Cb {
+	case 0:
+		gate = jwtGate(c.Secret, c.Prev)
+	default:
+		gate = jwtGate(c.Secret, c.Prev, func(w http.ResponseWriter, r *http.Request, err error) {
+			cur.Err = errCode(err)
+			if c.Cb == 2 {
+				w.Header().Set("X-Cb", "1")
+				w.WriteHeader(http.StatusTeapot)
+				cur.CbStatus = http.StatusTeapot
+			}
+		})
+	}
 	var keys []string
 	h := gate(http.HandlerFunc(func(w http.ResponseWriter, r *http.Request) {
 		cur.Ran = true
@@ -439,20 +618,64 @@ func runJwt(c Case) []JObs {
 		now := q.Now
 		jwt.TimeFunc = func() time.Time { return time.Unix(now, 0) }
 		o := JObs{Ctx: map[string]string{}}
+		if c.Cb == 0 {
+			o.Err = -9
+		}
 		cur = &o
-		hdr, present := authHeader(q, buildToken(q))
-		o.View = classify(hdr, present, c.Secret, c.Prev)
+		vals, present := authValues(q)
+		first := ""
+		if present {
+			first = vals[0]
+		}
+		o.View = classify(first, present, c.Secret, c.Prev)
 		keys = append([]string{}, stdClaims...)
 		for k := range o.View.Claims {
 			keys = append(keys, k)
 		}
 		r := httptest.NewRequest(http.MethodGet, "http://localhost/private", nil)
-		if present {
-			r.Header.Set("Authorization", hdr)
-		}
+		setAuth(r, vals)
 		rec, p := serve(h, r)
 		o.Status = rec.Code
 		o.Panic = p
+		res = append(res, o)
+	}
+	jwt.TimeFunc = time.Now
+	return res
+}
+
+// runTp drives ONE token.TokenParser directly; every call brings its own secret / prevSecret.
+func runTp(c Case) []TpObs {
+	var parser *token.TokenParser
+	if c.Reset {
+		// resetTime + resetDuration < now holds at once and for ever: every counted hit first drops the history
+		parser = token.NewTokenParser(token.WithResetDuration(-time.Hour))
+	} else {
+		parser = token.NewTokenParser()
+	}
+	var res []TpObs
+	for _, cl := range c.Calls {
+		now := cl.Req.Now
+		jwt.TimeFunc = func() time.Time { return time.Unix(now, 0) }
+		vals, present := authValues(cl.Req)
+		first := ""
+		if present {
+			first = vals[0]
+		}
+		o := TpObs{View: classify(first, present, cl.Secret, cl.Prev)}
+		r := httptest.NewRequest(http.MethodGet, "http://localhost/private", nil)
+		setAuth(r, vals)
+		func() {
+			defer func() {
+				if p := recover(); p != nil {
+					o.Code = -7
+				}
+			}()
+			tok, err := parser.ParseToken(r, cl.Secret, cl.Prev)
+			o.Code = errCode(err)
+			if err == nil && (tok == nil || !tok.Valid) {
+				o.Code = -3
+			}
+		}()
 		res = append(res, o)
 	}
 	jwt.TimeFunc = time.Now
@@ -463,15 +686,18 @@ func runJwt(c Case) []JObs {
 // content security + cryption
 
 type rsaKey struct {
-	priv *rsa.PrivateKey
-	file string
-	dec  codec.RsaDecrypter
+	priv   *rsa.PrivateKey
+	file   string
+	dec    codec.RsaDecrypter
+	pubPem []byte
 }
 
 var rsaKeys = map[string]*rsaKey{}
+var keyNames = []string{"A", "B", "C", "D"}
+var keyFiles = map[string]string{} // also: missing, badpem
 
 func setupKeys(dir string) {
-	for _, name := range []string{"A", "B"} {
+	for _, name := range keyNames {
 		k, err := rsa.GenerateKey(rand.Reader, 1024)
 		if err != nil {
 			hx.Fatal("rsa: %v", err)
@@ -485,8 +711,57 @@ func setupKeys(dir string) {
 		if err != nil {
 			hx.Fatal("decrypter: %v", err)
 		}
-		rsaKeys[name] = &rsaKey{priv: k, file: file, dec: dec}
+		pub, err := x509.MarshalPKIXPublicKey(&k.PublicKey)
+		if err != nil {
+			hx.Fatal("public key: %v", err)
+		}
+		rsaKeys[name] = &rsaKey{priv: k, file: file, dec: dec,
+			pubPem: pem.EncodeToMemory(&pem.Block{Type: "PUBLIC KEY", Bytes: pub})}
+		keyFiles[name] = file
 	}
+	keyFiles["missing"] = filepath.Join(dir, "no-such-file.pem")
+	keyFiles["badpem"] = filepath.Join(dir, "bad.pem")
+	os.WriteFile(keyFiles["badpem"], []byte("this is not a PEM file\n"), 0o600)
+	keyFiles["badkey"] = filepath.Join(dir, "badkey.pem")
+	os.WriteFile(keyFiles["badkey"], pem.EncodeToMemory(&pem.Block{Type: "RSA PRIVATE KEY", Bytes: []byte("junk")}), 0o600)
+}
+
+// own chunked RSA (the client side of DecryptBase64's block loop), with crypto/rsa only
+func ownRsaEnc(pub *rsa.PublicKey, msg []byte) []byte {
+	lim := pub.Size() - 11
+	var out []byte
+	for i := 0; i < len(msg); i += lim {
+		j := i + lim
+		if j > len(msg) {
+			j = len(msg)
+		}
+		ct, err := rsa.EncryptPKCS1v15(rand.Reader, pub, msg[i:j])
+		if err != nil {
+			hx.Fatal("rsa encrypt: %v", err)
+		}
+		out = append(out, ct...)
+	}
+	return out
+}
+
+func ownRsaDec(priv *rsa.PrivateKey, raw []byte) ([]byte, bool) {
+	k := priv.Size()
+	if len(raw) == 0 {
+		return nil, false
+	}
+	var out []byte
+	for i := 0; i < len(raw); i += k {
+		j := i + k
+		if j > len(raw) {
+			j = len(raw)
+		}
+		pt, err := rsa.DecryptPKCS1v15(rand.Reader, priv, raw[i:j])
+		if err != nil {
+			return nil, false
+		}
+		out = append(out, pt...)
+	}
+	return out, true
 }
 
 func latin(s string) []byte {
@@ -562,7 +837,13 @@ type built struct {
 }
 
 func buildCS(c Case, now int64) built {
-	q := c.Req
+	return buildCSReq(c.Req, c.Keys, now)
+}
+
+// buildCSReq builds the wire form of one content-security request and the harness's own reading of
+// it.  [known] = the fingerprints (= key names) configured, for the FpKnown / SecOk fields used by
+// the single-group kinds; DecKeys is independent of any configuration.
+func buildCSReq(q CSReq, known []string, now int64) built {
 	var b built
 	aesKey := latin(q.AesKey)
 	plain := latin(q.Body)
@@ -623,12 +904,24 @@ func buildCS(c Case, now int64) built {
 		keyText = *q.KeyB64
 	}
 	secretPlain := "key=" + keyText + "; time=" + ts + "; type=" + ctype
+	if q.SecPad > 0 {
+		secretPlain += "; pad=" + strings.Repeat("x", q.SecPad)
+	}
 	var secretField string
 	switch q.Rsa {
-	case "A", "B":
-		ct, err := rsa.EncryptPKCS1v15(rand.Reader, &rsaKeys[q.Rsa].priv.PublicKey, []byte(secretPlain))
-		if err != nil {
-			hx.Fatal("rsa encrypt: %v", err)
+	case "A", "B", "C", "D":
+		var ct []byte
+		if q.GzEnc {
+			// the client-side helper of go-zero itself
+			enc, err := codec.NewRsaEncrypter(rsaKeys[q.Rsa].pubPem)
+			if err != nil {
+				hx.Fatal("NewRsaEncrypter: %v", err)
+			}
+			if ct, err = enc.Encrypt([]byte(secretPlain)); err != nil {
+				hx.Fatal("rsa encrypt: %v", err)
+			}
+		} else {
+			ct = ownRsaEnc(&rsaKeys[q.Rsa].priv.PublicKey, []byte(secretPlain))
 		}
 		secretField = base64.StdEncoding.EncodeToString(ct)
 	case "notb64":
@@ -702,18 +995,23 @@ func buildCS(c Case, now int64) built {
 		v.HasSecret = q.Hdr != "nosecret"
 		v.HasSig = q.Hdr != "nosig" || q.HdrFmt == "dupsig_bad_last"
 	}
-	for _, k := range c.Keys {
+	for _, k := range known {
 		if k == q.Fp {
 			v.FpKnown = true
 		}
 	}
 	v.Sig = sig
 	v.TsStr = ts
+	v.SecretCt = secretField
 	usedKey := aesKey
-	if v.HasSecret && v.FpKnown {
-		if raw, err := base64.StdEncoding.DecodeString(secretField); err == nil {
-			if pt, err := rsa.DecryptPKCS1v15(rand.Reader, rsaKeys[q.Fp].priv, raw); err == nil && string(pt) == secretPlain {
-				v.SecOk = true
+	v.DecKeys = []string{}
+	if raw, err := base64.StdEncoding.DecodeString(secretField); err == nil {
+		for _, name := range keyNames {
+			if pt, ok := ownRsaDec(rsaKeys[name].priv, raw); ok && string(pt) == secretPlain {
+				v.DecKeys = append(v.DecKeys, name)
+				if v.HasSecret && v.FpKnown && name == q.Fp {
+					v.SecOk = true
+				}
 			}
 		}
 	}
@@ -730,10 +1028,10 @@ func buildCS(c Case, now int64) built {
 		v.CType = &n64
 	}
 	v.ContentLn = int64(len(wire))
-	if q.Chunked || len(wire) == 0 {
-		if q.Chunked {
-			v.ContentLn = -1
-		}
+	if q.Chunked {
+		v.ContentLn = -1
+	} else if len(wire) > 0 && q.ClenAdd != 0 && int64(len(wire))+q.ClenAdd > 0 {
+		v.ContentLn = int64(len(wire)) + q.ClenAdd
 	}
 	v.Digest = shaHex(wire)
 	v.Path, v.Query = q.Path, q.Query
@@ -746,7 +1044,12 @@ func buildCS(c Case, now int64) built {
 		}
 	}
 	v.Wire = hex.EncodeToString(wire)
-	if dec, err := base64.StdEncoding.DecodeString(string(wire)); err == nil {
+	// what decryptBody reads: exactly ContentLength bytes
+	bodyRead := wire
+	if v.ContentLn > 0 && v.ContentLn < int64(len(wire)) {
+		bodyRead = wire[:v.ContentLn]
+	}
+	if dec, err := base64.StdEncoding.DecodeString(string(bodyRead)); err == nil {
 		s := hex.EncodeToString(dec)
 		v.B64 = &s
 		if blk, err := aes.NewCipher(usedKey); err == nil {
@@ -774,7 +1077,10 @@ func buildCS(c Case, now int64) built {
 }
 
 func (b built) request(c Case) *http.Request {
-	q := c.Req
+	return b.requestFor(c.Req)
+}
+
+func (b built) requestFor(q CSReq) *http.Request {
 	target := "http://localhost" + q.Path
 	if q.Query != "" {
 		target += "?" + q.Query
@@ -787,6 +1093,9 @@ func (b built) request(c Case) *http.Request {
 		}
 	}
 	r := httptest.NewRequest(q.Method, target, body)
+	if b.view.ContentLn > 0 {
+		r.ContentLength = b.view.ContentLn
+	}
 	if b.hasHdr {
 		r.Header.Set("X-Content-Security", b.header)
 	}
@@ -830,6 +1139,15 @@ func buildEngine(c Case, route http.HandlerFunc, o *CSObs) http.Handler {
 		hx.Fatal("rest server: %v", err)
 	}
 	logx.Disable()
+	if c.UseMw {
+		// server.Use middlewares come after the authentication handlers in every chain
+		srv.Use(func(next http.HandlerFunc) http.HandlerFunc {
+			return func(w http.ResponseWriter, r *http.Request) {
+				o.MwRan = true
+				next(w, r)
+			}
+		})
+	}
 	var keys []rest.PrivateKeyConf
 	for _, k := range c.Keys {
 		keys = append(keys, rest.PrivateKeyConf{Fingerprint: k, KeyFile: rsaKeys[k].file})
@@ -873,6 +1191,166 @@ func buildEngine(c Case, route http.HandlerFunc, o *CSObs) http.Handler {
 	return rt
 }
 
+// ---------------------------------------------------------------------------
+// srv: ONE rest.Server, several route groups each with its own JWT secrets / signature keys /
+// strictness / tolerance, and a SEQUENCE of requests, each aimed at one group's route with
+// credentials made for any group's configuration.
+
+type srvCur struct {
+	o *SReqObs
+	q *CSReq
+}
+
+func buildSrv(c Case, cur *srvCur, so *SrvObs) http.Handler {
+	var rc rest.RestConf
+	if err := conf.LoadFromJsonBytes([]byte(`{"Name":"c18","Host":"127.0.0.1","Port":70000,"CpuThreshold":0,`+
+		`"Middlewares":{"Shedding":false,"Log":false,"Prometheus":false,"Trace":false,"Metrics":false}}`), &rc); err != nil {
+		hx.Fatal("rest conf: %v", err)
+	}
+	rt := router.NewRouter()
+	opts := []rest.RunOption{rest.WithRouter(rt)}
+	if c.UaCb {
+		opts = append(opts, rest.WithUnauthorizedCallback(func(w http.ResponseWriter, r *http.Request, err error) {
+			cur.o.UErr = errCode(err)
+		}))
+	}
+	if c.UsCb {
+		opts = append(opts, rest.WithUnsignedCallback(func(w http.ResponseWriter, r *http.Request, next http.Handler,
+			strict bool, code int) {
+			cur.o.UsCode = code
+			if strict {
+				w.WriteHeader(http.StatusForbidden)
+			} else {
+				next.ServeHTTP(w, r)
+			}
+		}))
+	}
+	srv, err := rest.NewServer(rc, opts...)
+	if err != nil {
+		hx.Fatal("rest server: %v", err)
+	}
+	logx.Disable()
+	if c.UseMw {
+		srv.Use(func(next http.HandlerFunc) http.HandlerFunc {
+			return func(w http.ResponseWriter, r *http.Request) {
+				cur.o.MwRan = true
+				next(w, r)
+			}
+		})
+	}
+	for _, g := range c.SGroups {
+		var ropts []rest.RouteOption
+		if g.Jwt != nil {
+			if g.Jwt.Prev == "" {
+				ropts = append(ropts, rest.WithJwt(g.Jwt.Secret))
+			} else {
+				ropts = append(ropts, rest.WithJwtTransition(g.Jwt.Secret, g.Jwt.Prev))
+			}
+		}
+		if g.Sig != nil {
+			var keys []rest.PrivateKeyConf
+			for _, k := range g.Sig.Keys {
+				keys = append(keys, rest.PrivateKeyConf{Fingerprint: k.Fp, KeyFile: keyFiles[k.File]})
+			}
+			ropts = append(ropts, rest.WithSignature(rest.SignatureConf{Strict: g.Sig.Strict,
+				Expiry: time.Duration(g.Sig.Tol) * time.Second, PrivateKeys: keys}))
+		}
+		for _, op := range g.Opts {
+			switch op {
+			case "timeout":
+				ropts = append(ropts, rest.WithTimeout(30*time.Second))
+			case "maxbytes":
+				ropts = append(ropts, rest.WithMaxBytes(1<<20))
+			}
+		}
+		var routes []rest.Route
+		for _, mp := range g.Routes {
+			label := mp[0] + " " + mp[1]
+			routes = append(routes, rest.Route{Method: mp[0], Path: mp[1], Handler: func(w http.ResponseWriter, r *http.Request) {
+				cur.o.Ran = true
+				cur.o.RanRoute = label
+				b, _ := io.ReadAll(r.Body)
+				cur.o.Seen = hex.EncodeToString(b)
+				w.WriteHeader(http.StatusOK)
+				if cur.q.Resp != "" {
+					w.Write(latin(cur.q.Resp))
+				}
+			}})
+		}
+		srv.AddRoutes(routes, ropts...)
+	}
+	so.BindOk = false
+	func() {
+		defer func() {
+			if p := recover(); p != nil {
+				if e, ok := p.(error); ok && strings.Contains(e.Error(), "70000") {
+					so.BindOk = true // every route was bound; only listening failed, as intended
+				} else {
+					so.EngErr = fmt.Sprint(p)
+				}
+			}
+		}()
+		srv.Start()
+	}()
+	return rt
+}
+
+func runSrv(c Case) *SrvObs {
+	so := &SrvObs{}
+	cur := &srvCur{}
+	var secrets []string
+	for _, g := range c.SGroups {
+		if g.Jwt != nil {
+			secrets = append(secrets, g.Jwt.Secret)
+			if g.Jwt.Prev != "" {
+				secrets = append(secrets, g.Jwt.Prev)
+			}
+		}
+	}
+	// a first observation slot for anything that happens while binding
+	cur.o, cur.q = &SReqObs{}, &CSReq{}
+	h := buildSrv(c, cur, so)
+	for i := range c.SReqs {
+		sq := c.SReqs[i]
+		o := SReqObs{UErr: 0, UsCode: -1}
+		if !c.UaCb {
+			o.UErr = -9
+		}
+		cur.o, cur.q = &o, &sq.CS
+		// content security reads time.Now(): start early in a wall-clock second, check afterwards
+		if ns := time.Now().Nanosecond(); ns > 750_000_000 {
+			time.Sleep(time.Duration(1_000_000_000-ns) + time.Millisecond)
+		}
+		n0 := time.Now().Unix()
+		b := buildCSReq(sq.CS, nil, n0)
+		r := b.requestFor(sq.CS)
+		if sq.J != nil {
+			jq := *sq.J
+			jnow := jq.Now
+			jwt.TimeFunc = func() time.Time { return time.Unix(jnow, 0) }
+			vals, present := authValues(jq)
+			first := ""
+			if present {
+				first = vals[0]
+			}
+			setAuth(r, vals)
+			jv := classify(first, present, "", "", secrets...)
+			o.JView = &jv
+		}
+		rec, p := serve(h, r)
+		o.Unstable = time.Now().Unix() != n0
+		o.Status, o.Panic, o.RespRaw = rec.Code, p, hex.EncodeToString(rec.Body.Bytes())
+		if dec, err := base64.StdEncoding.DecodeString(string(rec.Body.Bytes())); err == nil {
+			sd := hex.EncodeToString(dec)
+			o.RespDec = &sd
+		}
+		o.View = b.view
+		so.Reqs = append(so.Reqs, o)
+	}
+	jwt.TimeFunc = time.Now
+	return so
+}
+
 func runHdr(c Case) []HObs {
 	var res []HObs
 	for _, h := range c.Hdrs {
@@ -899,13 +1377,27 @@ func runCS(c Case) *CSObs {
 	}
 	tol := time.Duration(c.Tol) * time.Second
 	ranp := &o.Ran
+	hijackOdd := false
 	route := http.HandlerFunc(func(w http.ResponseWriter, r *http.Request) {
 		*ranp = true
 		b, _ := io.ReadAll(r.Body)
 		o.Seen = hex.EncodeToString(b)
+		w.Header().Set("X-Out", "1")
 		w.WriteHeader(http.StatusOK)
 		if q.Resp != "" {
 			w.Write(latin(q.Resp))
+		}
+		if q.Flush {
+			// through whatever writer the gate handed us (the cryption writer buffers the body)
+			if f, ok := w.(http.Flusher); ok {
+				f.Flush()
+			}
+			if hj, ok := w.(http.Hijacker); ok {
+				// the recorder underneath cannot be hijacked: an error, not a panic, not a connection
+				if conn, _, err := hj.Hijack(); err == nil || conn != nil {
+					hijackOdd = true
+				}
+			}
 		}
 	})
 	mk := func(cbs ...handler.UnsignedCallback) http.Handler {
@@ -913,7 +1405,13 @@ func runCS(c Case) *CSObs {
 		if c.Kind == "eng" {
 			return buildEngine(c, route, o)
 		} else if c.Kind == "crypt" {
-			h = handler.LimitCryptionHandler(limit, latin(q.AesKey))(route)
+			if c.Wrap && c.Limit == 0 {
+				h = handler.CryptionHandler(latin(q.AesKey))(route)
+			} else {
+				h = handler.LimitCryptionHandler(limit, latin(q.AesKey))(route)
+			}
+		} else if c.Wrap && c.Limit == 0 {
+			h = handler.ContentSecurityHandler(decs, tol, c.Strict, cbs...)(route)
 		} else {
 			h = handler.LimitContentSecurityHandler(limit, decs, tol, c.Strict, cbs...)(route)
 		}
@@ -929,7 +1427,7 @@ func runCS(c Case) *CSObs {
 	var b built
 	for attempt := 0; attempt < 6; attempt++ {
 		*ranp, o.Seen, o.JwtRan, o.Ran2, o.Code = false, "", false, false, -1
-		o.RanRoute, o.UaCalled = "", false
+		o.RanRoute, o.UaCalled, o.MwRan = "", false, false
 		ranp = &o.Ran
 		n0 := time.Now().Unix()
 		b = buildCS(c, n0)
@@ -938,15 +1436,18 @@ func runCS(c Case) *CSObs {
 			jq := c.Reqs[0]
 			jnow := jq.Now
 			jwt.TimeFunc = func() time.Time { return time.Unix(jnow, 0) }
-			hdr, present := authHeader(jq, buildToken(jq))
+			vals, present := authValues(jq)
+			first := ""
 			if present {
-				r.Header.Set("Authorization", hdr)
+				first = vals[0]
 			}
-			jv := classify(hdr, present, c.Secret, c.Prev)
+			setAuth(r, vals)
+			jv := classify(first, present, c.Secret, c.Prev)
 			o.JwtView = &jv
 		}
 		rec, p := serve(mk(), r)
 		o.Status, o.Panic, o.RespRaw = rec.Code, p, hex.EncodeToString(rec.Body.Bytes())
+		o.HdrOut = rec.Header().Get("X-Out") == "1"
 		// second run with a recording callback: which failure code the gate reports
 		if c.Kind == "cs" && !c.WithJwt {
 			seen := o.Seen
@@ -1003,7 +1504,79 @@ func runCS(c Case) *CSObs {
 		raw, _ := hex.DecodeString(*o.View.B64)
 		o.RawDec = guarded(func() ([]byte, error) { return codec.EcbDecrypt(key, raw) })
 	}
+	o.CodecX = codecExtras(key, plain, enc, err == nil)
+	if hijackOdd {
+		o.CodecX += " hijack"
+	}
 	return o
+}
+
+// codecExtras: the remaining exported entry points of core/codec/aesecb.go must be the same
+// functions as EcbEncrypt / EcbDecrypt (base64 wrappers) and must leave dst alone on bad sizes.
+func codecExtras(key, plain, enc []byte, encOk bool) (diff string) {
+	defer func() {
+		if p := recover(); p != nil {
+			diff += " panic:" + fmt.Sprint(p)
+		}
+	}()
+	b64 := base64.StdEncoding
+	// getKeyBytes: up to 32 characters the key string is the key itself, longer ones are base64
+	keyStrs := []string{string(key)}
+	if len(key) > 24 {
+		keyStrs = append(keyStrs, b64.EncodeToString(key))
+	}
+	for _, ks := range keyStrs {
+		if len(string(key)) > 32 && ks == string(key) {
+			continue // a raw key string longer than 32 bytes would be read as base64
+		}
+		got, err := codec.EcbEncryptBase64(ks, b64.EncodeToString(plain))
+		if (err == nil) != encOk || (encOk && got != b64.EncodeToString(enc)) {
+			diff += " EcbEncryptBase64"
+		}
+		if encOk {
+			back, err := codec.EcbDecryptBase64(ks, b64.EncodeToString(enc))
+			if err != nil || back != b64.EncodeToString(plain) {
+				diff += " EcbDecryptBase64"
+			}
+		}
+	}
+	if _, err := codec.EcbEncryptBase64(string(key), "@@not base64@@"); err == nil {
+		diff += " EcbEncryptBase64-accepts-garbage"
+	}
+	if _, err := codec.EcbDecryptBase64(string(key), "@@not base64@@"); err == nil {
+		diff += " EcbDecryptBase64-accepts-garbage"
+	}
+	if _, err := codec.EcbDecryptBase64(strings.Repeat("@", 40), "AAAA"); err == nil {
+		diff += " getKeyBytes-accepts-garbage"
+	}
+	if blk, err := aes.NewCipher(key); err == nil {
+		e, d := codec.NewECBEncrypter(blk), codec.NewECBDecrypter(blk)
+		if e.BlockSize() != 16 || d.BlockSize() != 16 {
+			diff += " BlockSize"
+		}
+		src := ownPad(plain)
+		for _, mode := range []cipher.BlockMode{e, d} {
+			// input that is not a whole number of blocks, or an output buffer that is too short:
+			// reported (logged), dst untouched
+			dst := bytes.Repeat([]byte{0xEE}, len(src)+3)
+			mode.CryptBlocks(dst, append(append([]byte{}, src...), 1, 2, 3))
+			short := bytes.Repeat([]byte{0xEE}, len(src)-1)
+			mode.CryptBlocks(short, src)
+			if !bytes.Equal(dst, bytes.Repeat([]byte{0xEE}, len(src)+3)) || !bytes.Equal(short, bytes.Repeat([]byte{0xEE}, len(src)-1)) {
+				diff += " CryptBlocks-bad-size"
+			}
+		}
+		// and block by block they are AES
+		want, _ := ownEcb(key, src, true)
+		got := make([]byte, len(src))
+		e.CryptBlocks(got, src)
+		back := make([]byte, len(src))
+		d.CryptBlocks(back, got)
+		if !bytes.Equal(got, want) || !bytes.Equal(back, src) {
+			diff += " CryptBlocks"
+		}
+	}
+	return strings.TrimSpace(diff)
 }
 
 func main() {
@@ -1025,6 +1598,10 @@ func main() {
 			out.Jwt = runJwt(c)
 		case "cs", "crypt", "eng":
 			out.CS = runCS(c)
+		case "tp":
+			out.Tp = runTp(c)
+		case "srv":
+			out.Srv = runSrv(c)
 		case "hdr":
 			out.Hdr = runHdr(c)
 		default:
